@@ -139,17 +139,36 @@ def rule_rename(rep, prog, rid='R16.rename'):
     ev = _evaluator(prog)
     t = call(ev, f, [A('network'), A('keep')])
     site = f.site
-    if not ev.loops:
+    red = ev.reductions[-1] if ev.reductions else None
+    if not ev.loops and red is None:
         rep.ob(rid, 'contraction:loop', None, 'no sequential contraction loop found', site); return
-    lp = ev.loops[-1]
-    cname = lp['assigned'][0] if len(lp['assigned']) == 1 else 'branches'
-    step = lp['summary'].get(cname)
-    carried = Poly.atom(('carried', cname))
-    # ---- which shorts, which pairs
-    it = lp['iter']
     branches = ev.getattr(A('network'), 'branches', f.mod, 0)
     b0 = ev.elem_of(branches, 0)
     env, m = spec_env(prog, ev, {'b': b0})
+    if ev.loops:
+        lp = ev.loops[-1]
+        cname = lp['assigned'][0] if len(lp['assigned']) == 1 else 'branches'
+        step = lp['summary'].get(cname)
+        carried = Poly.atom(('carried', cname))
+        it = lp['iter']; init = lp['init'].get(cname)
+    else:
+        lp = None; it = red['iter']; init = red['init']; carried = Poly.atom(('carried', 'acc')); step = True
+    # the pair may be a plain tuple or a small record (NamedTuple / dataclass) of (absorbed, retained)
+    def as_pair(x):
+        if isinstance(x, Rec) and len(x.f) == 2:
+            nt = ev.namedtuple_items(x)
+            if nt is not None: return tuple(nt)
+            if x.clsref and isinstance(x.clsref, tuple):
+                names = [f_[0] for f_ in prog.dataclass_fields(x.clsref[0], x.clsref[1])]
+                if len(names) == 2 and all(n_ in x.f for n_ in names): return (x.f[names[0]], x.f[names[1]])
+        return x
+    def map_leaves(v, fn):
+        return Cond(v.g, map_leaves(v.a, fn), map_leaves(v.b, fn)) if isinstance(v, Cond) else fn(v)
+    pair_rec = None
+    if isinstance(it, Comp):
+        leaf0 = next((l for _, l in paths_of(it.elt)), None)
+        if isinstance(leaf0, Rec): pair_rec = leaf0
+        it = Comp(map_leaves(it.elt, as_pair), it.gens, it.kind)
     # (absorbed, retained) pairs of the shorts that are not exempt, in listing order; the absorbed node is never the reference
     pair_src = ("[({p}) for vs in [b for b in network.branches if (b.element.V == 0 and b.element.Z == 0) and b.element not in keep]]")
     forms = ["(vs.node1, vs.node2) if not network.is_zero_node(vs.node1) else (vs.node2, vs.node1)",
@@ -160,13 +179,21 @@ def rule_rename(rep, prog, rid='R16.rename'):
         if any(r is True for r in res): pairs_ok = True; why = '(absorbed, retained) = (n1, n2) unless n1 is the reference; shorts = is_short_circuit and not exempt'
         elif all(r is False for r in res): pairs_ok = False
     rep.ob(rid, 'contraction:pairs', pairs_ok, why, site, lhs=it)
-    init = lp['init'].get(cname)
     rep.ob(rid, 'contraction:start', True if term_equal(init, branches) else (None if has_opaque(init) else False), f'starts from {init!r:.80}', site)
     # ---- per-branch rewrite
-    if not isinstance(step, Comp):
-        rep.ob(rid, 'contraction:step', None, f'step = {step!r:.200}', site); return
     an_t, rn_t = A('absorbed'), A('retained')
-    step = ev.reeval_loop(lp, (an_t, rn_t)).get(cname)
+    target = (an_t, rn_t)
+    if pair_rec is not None:
+        names = list(pair_rec.f)
+        nt = ev.namedtuple_items(pair_rec)
+        if pair_rec.clsref and isinstance(pair_rec.clsref, tuple): names = [f_[0] for f_ in prog.dataclass_fields(pair_rec.clsref[0], pair_rec.clsref[1])]
+        target = Rec(pair_rec.cls, {names[0]: an_t, names[1]: rn_t}, pair_rec.clsref)
+    if lp is not None:
+        if not isinstance(step, Comp):
+            rep.ob(rid, 'contraction:step', None, f'step = {step!r:.200}', site); return
+        step = ev.reeval_loop(lp, target).get(cname)
+    else:
+        step = ev.apply(red['fn'], [carried, target], {}, red['mod'], 1)
     if not isinstance(step, Comp):
         rep.ob(rid, 'contraction:step', None, f'step = {step!r:.200}', site); return
     # one contraction step rewrites both terminals of every branch and drops exactly the self-loops that result
